@@ -84,6 +84,12 @@ known('C14', 'C14|get_bounds-raises|permutation-next-to-other-variables',
       'Task.get_bounds builds a ragged array when a PermutationVariable (one coordinate whose bounds are lists) stands '
       'next to any other variable: numpy raises "inhomogeneous shape"; no optimizer can run on such a task',
       "Task(variables=[ContinuousVariable, PermutationVariable]).get_bounds()")
+known('C06', 'C06|OptimizationAbstract|TypeError|__should_stop__|bad operand type for unary - NoneType',
+      'EarlyStopping(patience=None) is accepted by its validator (the field is Optional) but the stop rule slices '
+      'self._error_diffs[-patience:]', 'any optimizer, early_stopping={patience: None, min_delta: 0.5}')
+known('C06', 'C06|OptimizationAbstract|TypeError|__should_stop__|< not supported between instances of flo',
+      'EarlyStopping(min_delta=None) is accepted by its validator but the stop rule compares abs(diff) < min_delta',
+      'any optimizer, early_stopping={patience: 2, min_delta: None}')
 
 FIXED = [
     "fixed: property=C07 0d03759 Task.seed typed float: every seeded run raised TypeError in np.random.seed",
@@ -106,6 +112,7 @@ FIXED = [
     "fixed: property=C20 1afd7a0 Multitask(modes=<one per algorithm>) raised TypeError (deepcopy of a generator)",
     "fixed: property=C20 472e8e3 Multitask(modes=<one per pair>) was indexed as if nested: modes read character-wise, ValueError",
     "fixed: property=C20 3e0cf95 Multitask.export_results nested every algorithm directory inside the previous one",
+    "fixed: property=C11 99d5b51 process-mode workers were forked with the parent's generator state and replayed one stream: 20 initial agents, 8-12 distinct",
     "fixed: property=C01 5131d68 Imperialist Competitive revolution swapped coordinates of the colony's own position in place: out-of-range reals and non-integer discrete coordinates were reported with a stale cost",
 ]
 
